@@ -60,6 +60,19 @@ def plain_row(path, table, rid):
     return rows[0] if rows else None
 
 
+# every other updatable column of a table, with a generator of new values (JSON columns get JSON text, as StreamFlow passes it)
+OTHER_COLS = {
+    "workflow": {"status": lambda v: v % 7, "type": lambda v: f"t{v}", "start_time": lambda v: v, "end_time": lambda v: v + 1},
+    "deployment": {"type": lambda v: f"t{v}", "external": lambda v: v % 2, "lazy": lambda v: v % 2, "workdir": lambda v: f"/w{v}",
+                   "scheduling_policy": lambda v: json.dumps({"p": [v]}), "wraps": lambda v: json.dumps({"deployment": f"d{v}"})},
+    "filter": {"type": lambda v: f"t{v}"},
+    "port": {"type": lambda v: f"t{v}"},
+    "step": {"status": lambda v: v % 7, "type": lambda v: f"t{v}"},
+    "target": {"locations": lambda v: v, "workdir": lambda v: f"/w{v}", "type": lambda v: f"t{v}"},
+    "execution": {"status": lambda v: v % 7, "start_time": lambda v: v, "end_time": lambda v: v + 1},
+}
+
+
 class _Ctx:  # SqliteDatabase only reads context.config["path"] for relative connections
     config = {"path": "/"}
 
@@ -98,9 +111,7 @@ def canon(table, row):
     row = dict(row)
     _, _, _, sc, jc, _ = TABLES[table]
     a = row.get(sc)
-    j = row.get(jc) if jc else None
-    if isinstance(j, str):        # uncached getters of raw rows do not decode
-        j = json.loads(j)
+    j = row.get(jc) if jc else None      # NOT normalised: a JSON column handed out as a string is a difference
     rest = {k: v for k, v in row.items() if k not in (sc, jc)}
     # a snapshot: the caller may mutate the row object later
     return json.loads(json.dumps([a, j, rest], sort_keys=True, default=str))
@@ -148,7 +159,7 @@ class History:
                 t = rng.choice([x for x in avail if TABLES[x][2]])
                 rid = rng.randint(1, counts[t] + (1 if rng.random() < 0.05 else 0))
                 self.ops.append(("upd", t, rid, rng.randint(100, 199), [rng.randint(100, 199) for _ in range(rng.randint(0, 3))],
-                                 rng.choice(["both", "both", "scalar", "json"])))
+                                 rng.choice(["both", "both", "scalar", "json", "other", "other"])))
             elif r < 0.74:
                 t = rng.choice(avail)
                 rid = rng.randint(1, counts[t] + (1 if rng.random() < 0.05 else 0))
@@ -239,7 +250,11 @@ async def run_history(ops, path):
                 if cur is not None:
                     cc = canon(t, cur)
                     new_a, new_items = int(str(cc[0])[1:]), (cc[1]["k"] if cc[1] else [])
-                if what in ("both", "scalar") or jc is None:
+                if what == "other":
+                    cols = sorted(OTHER_COLS[t])
+                    for c in {cols[a % len(cols)], cols[(a // 7) % len(cols)]}:
+                        updates[c] = OTHER_COLS[t][c](a)
+                elif what in ("both", "scalar") or jc is None:
                     updates[sc] = f"n{a}"
                     new_a = a
                 if what in ("both", "json") and jc is not None:
